@@ -1,5 +1,4 @@
 import Gaftools.Props.C08
-import Gaftools.Props.TieA2
 #print axioms Gaftools.C08.gen_eq_model
 #print axioms Gaftools.C08.cmp_iff
 #print axioms Gaftools.C08.cmp_antisymm
@@ -10,5 +9,3 @@ import Gaftools.Props.TieA2
 #print axioms Gaftools.C08.sort_sorted
 #print axioms Gaftools.C08.sort_unique
 #print axioms Gaftools.C08.sort_perm_invariant
-#print axioms Gaftools.TieA.processAlignment_gen
-#print axioms Gaftools.TieA.sortNode_gen
